@@ -60,6 +60,7 @@ type Cancel struct {
 type HookAct struct {
 	Action string `json:"a"` // gosched | sleep
 	N      int    `json:"n"` // yields or microseconds
+	First  int    `json:"first,omitempty"` // >0: only the first First arrivals at the point are perturbed
 }
 
 type Sched struct {
